@@ -112,7 +112,10 @@ func (ft *FuncTr) call(st *State, at *Term, in ssa.Instruction, c *ssa.CallCommo
 	if err != nil {
 		return r, err
 	}
-	if err := ft.anchored(st, preCall, at, in, cname, false); err != nil {
+	ft.lastCallRes, ft.lastCallSig = &r, c.Signature()
+	err = ft.anchored(st, preCall, at, in, cname, false)
+	ft.lastCallRes, ft.lastCallSig = nil, nil
+	if err != nil {
 		return Val{}, err
 	}
 	return r, nil
@@ -144,6 +147,20 @@ func (ft *FuncTr) anchored(st *State, preCall *State, at *Term, in ssa.Instructi
 		env.pre = preCall
 		if l := ft.loopOf[in.Block()]; l != nil && l.head != nil {
 			env.headSt = l.head
+		}
+		if !before && ft.lastCallRes != nil && ft.lastCallSig != nil {
+			// ret / ret0, ret1, ...: the values the call returned
+			rs := ft.lastCallSig.Results()
+			if rs.Len() == 1 && ft.lastCallRes.T != nil {
+				env.vars["ret"] = SV{T: ft.lastCallRes.T, Ty: rs.At(0).Type()}
+				env.vars["ret0"] = env.vars["ret"]
+			} else if rs.Len() == len(ft.lastCallRes.Tuple) {
+				for k, tv := range ft.lastCallRes.Tuple {
+					if tv.T != nil {
+						env.vars[fmt.Sprintf("ret%d", k)] = SV{T: tv.T, Ty: rs.At(k).Type()}
+					}
+				}
+			}
 		}
 		var side []*Term
 		env.side = &side
@@ -327,16 +344,23 @@ func (ft *FuncTr) applyContract(st *State, at *Term, in ssa.Instruction, name st
 	}
 	ft.noteCalleeWrites(st, at, ms, short, pos)
 	oldNext := ft.h.nextID(pre)
+	type havocRec struct{ before, after *Term }
+	var havocked []havocRec
 	for _, n := range ms.names() {
 		am := ms.arrs[n]
 		before := ft.h.arr(st, n, am.sort)
 		after := ft.d.Fresh(n+"_c", am.sort)
+		if !strings.HasPrefix(n, "G_") {
+			havocked = append(havocked, havocRec{before, after})
+		}
 		ft.h.setArr(st, n, after)
 		if !am.whole {
 			ft.assume(at, frameCond(am, before, after, oldNext))
 		}
 		if !am.whole && len(am.locs) == 0 {
 			ft.h.noteFreshFrame(before, after, oldNext)
+		} else if !am.whole {
+			ft.h.noteFreshFrameCond(before, after, ft.h.nextID(ft.init), ft.locsFreshCond(am.locs))
 		}
 	}
 	for _, n := range sortedKeys(ms.ghost) {
@@ -390,6 +414,22 @@ func (ft *FuncTr) applyContract(st *State, at *Term, in ssa.Instruction, name st
 	}
 	for _, s := range side {
 		ft.assume(at, s)
+	}
+	// readonly when cond: under cond the havocked arrays keep every cell of objects allocated before the call
+	for i, rc := range con.ReadonlyWhen {
+		cond, err := envPost.trBool(rc.E)
+		if err != nil {
+			return Val{}, fmt.Errorf("readonly[%d] of %s: %v", i+1, name, err)
+		}
+		for _, hv := range havocked {
+			if hv.before.Sort.K != SPtr {
+				continue
+			}
+			ft.assume(at, Implies(cond, frameCond(&ArrMod{sort: hv.before.Sort}, hv.before, hv.after, oldNext)))
+			if _, has := ft.h.freshFrom[hv.after.S]; !has && i == 0 {
+				ft.h.noteFreshFrameCond(hv.before, hv.after, oldNext, cond)
+			}
+		}
 	}
 	switch len(rvals) {
 	case 0:
